@@ -471,7 +471,11 @@ func TestC04(t *testing.T) {
 				if cand == nil {
 					continue
 				}
-				// other contexts' requests may have used it; that is accounted per request by carried[]
+				// other contexts' requests may have used it; that is accounted per request by carried[].
+				// A retry timer may fire between the look at the log above and the close below and hand
+				// its copy to this very pipe, where the close swallows it unrecorded: the library then
+				// rightly re-sends at once.  The audit therefore treats this close as a possible carrier loss.
+				s.maybeSwallowed[cand] = true
 				s.closePipe(cand)
 				s.logf("closeOther(%s)", cand.Name)
 				s.canon += "o"
